@@ -68,6 +68,10 @@ def combine(run, f):
         if isinstance(lp, ast.For) and isinstance(lp.iter, ast.Call) and norm(lp.iter.func) == 'range':
             run.check(len(lp.iter.args) == 1, 'R10.asc', f, lp.iter, 'ordered product: rows must be multiplied in '
                       'ascending order (X image before Z image)')
+        elif isinstance(lp, ast.For) and isinstance(lp.iter, ast.Call) and norm(lp.iter.func) in ('zip', 'enumerate') and lp.iter.args \
+                and all(isinstance(a, (ast.Name, ast.Attribute)) for a in lp.iter.args) and not lp.iter.keywords:
+            # the sequences themselves, element by element from the first: the order in which they were produced
+            run.ok('R10.asc', f, lp.iter, 'sequences walked from their first element')
         else:
             run.undecided('R10.asc', f, lp.iter, 'loop is not a range')
     # identity start
